@@ -81,6 +81,8 @@ type Driver struct {
 	stepErrSet bool
 	// LastOp describes the last executed operation.
 	LastOp string
+	// Faults, when set, is consulted for body-stream faults.
+	Faults *seams.Faults
 }
 
 // Fork returns a driver on another storage (a restarted or forked world) that
@@ -101,6 +103,19 @@ func NewDriver(rc *RunCtx, st storage.Storage, cfg DriverCfg) *Driver {
 }
 
 func (d *Driver) on(o string) bool { return d.Cfg.Oracles[o] }
+
+// noteOp records the outcome of the step's primary storage call and disarms
+// fault injection: the read-backs that follow are oracle work, not workload.
+func (d *Driver) noteOp(op string, err error) {
+	if !d.stepErrSet {
+		d.stepErrSet = true
+		d.StepErr = err
+		d.LastOp = op
+	}
+	if d.Faults != nil {
+		d.Faults.Armed = false
+	}
+}
 
 func (d *Driver) fail(oracle, key, format string, a ...any) *Violation {
 	if !d.on(oracle) {
@@ -159,11 +174,6 @@ func absentKind(k model.ErrKind) bool {
 
 // agree compares the outcome class of an operation.
 func (d *Driver) agree(op string, want model.ErrKind, err error) *Violation {
-	if !d.stepErrSet {
-		d.stepErrSet = true
-		d.StepErr = err
-		d.LastOp = op
-	}
 	got := classify(err)
 	if want == model.OK && got != model.OK {
 		if seams.IsInjected(err) {
@@ -289,6 +299,12 @@ func (d *Driver) reader(b []byte, g *sim.Tape) io.Reader {
 	}
 	if d.Cfg.SlowBodies {
 		body.YieldEvery = 1 + g.Int(4)
+	}
+	if d.Faults != nil && len(b) > 0 {
+		if err := d.Faults.Check("body.read:mid-stream-error"); err != nil {
+			body.FailAt = int64(len(b) / 2)
+			body.Err = err
+		}
 	}
 	return body
 }
@@ -486,6 +502,7 @@ func (d *Driver) opBucket(g *sim.Tape, forceCreate bool) *Violation {
 		d.log("CreateBucket(%s)", name)
 		want := d.M.CreateBucket(name)
 		err := d.St.CreateBucket(d.ctx, bn(name))
+		d.noteOp("CreateBucket("+name+")", err)
 		if want == model.OK {
 			d.Mutations++
 		}
@@ -497,6 +514,7 @@ func (d *Driver) opBucket(g *sim.Tape, forceCreate bool) *Violation {
 	d.log("DeleteBucket(%s)", name)
 	want := d.M.DeleteBucket(name)
 	err := d.St.DeleteBucket(d.ctx, bn(name))
+	d.noteOp("DeleteBucket("+name+")", err)
 	if want == model.OK {
 		d.Mutations++
 	}
@@ -533,6 +551,7 @@ func (d *Driver) opVersioning(g *sim.Tape) *Violation {
 	want := d.M.SetVersioning(b, status)
 	st := storage.BucketVersioningStatus(status)
 	err := d.St.PutBucketVersioningConfiguration(d.ctx, bn(b), &storage.BucketVersioningConfiguration{Status: &st})
+	d.noteOp("PutBucketVersioning("+b+")", err)
 	if v := d.agree("PutBucketVersioning("+b+")", want, err); v != nil {
 		return v
 	}
@@ -605,6 +624,7 @@ func (d *Driver) opPut(g *sim.Tape) *Violation {
 		opts = &storage.PutObjectOptions{IfNoneMatchStar: inm, IfMatchETag: ifm, Tags: tags, Metadata: md, StorageClass: class}
 	}
 	res, err := d.St.PutObject(d.ctx, bn(b), ok(k), ct, d.reader(body, g), ci, opts)
+	d.noteOp(op, err)
 	if wrongSum {
 		// the write must fail and leave no trace
 		if err == nil {
@@ -696,6 +716,7 @@ func (d *Driver) opAppend(g *sim.Tape) *Violation {
 		opts = &storage.AppendObjectOptions{WriteOffset: off}
 	}
 	res, err := d.St.AppendObject(d.ctx, bn(b), ok(k), d.reader(body, g), nil, opts)
+	d.noteOp(op, err)
 	mv, want := d.M.AppendObject(b, k, body, off)
 	if v := d.agree(op, want, err); v != nil {
 		return v
@@ -797,6 +818,7 @@ func (d *Driver) opCopy(g *sim.Tape) *Violation {
 	op := fmt.Sprintf("CopyObject(%s/%s@%s -> %s/%s, replMeta=%v replTags=%v class=%s range=%s-%s)", sb, sk, strp(a.SrcVersion), db, dk, a.ReplaceMetadata, a.ReplaceTags, strp(opts.StorageClass), i64p(a.RangeStart), i64p(a.RangeEnd))
 	d.log("%s", op)
 	res, err := d.St.CopyObject(d.ctx, bn(sb), ok(sk), bn(db), ok(dk), opts)
+	d.noteOp(op, err)
 	mv, _, want := d.M.CopyObject(sb, sk, db, dk, a)
 	if v := d.agree(op, want, err); v != nil {
 		return v
@@ -854,6 +876,7 @@ func (d *Driver) opDelete(g *sim.Tape, byVersion bool) *Violation {
 	op := fmt.Sprintf("DeleteObject(%s/%s@%s,ifm=%s)", b, k, strp(mv), strp(ifm))
 	d.log("%s", op)
 	res, err := d.St.DeleteObject(d.ctx, bn(b), ok(k), opts)
+	d.noteOp(op, err)
 	mres, want := d.M.DeleteObject(b, k, mv, ifm)
 	if v := d.agree(op, want, err); v != nil {
 		return v
@@ -905,6 +928,7 @@ func (d *Driver) opMultiDelete(g *sim.Tape) *Violation {
 	op := fmt.Sprintf("DeleteObjects(%s,%v)", b, describeEntries(ms, func(m ment) string { return m.key + "@" + strp(m.mv) }))
 	d.log("%s", op)
 	res, err := d.St.DeleteObjects(d.ctx, bn(b), entries)
+	d.noteOp(op, err)
 	if _, exists := d.M.Buckets[b]; !exists {
 		return d.agree(op, model.NoSuchBucket, err)
 	}
@@ -967,6 +991,7 @@ func (d *Driver) opTagging(g *sim.Tape) *Violation {
 		op := fmt.Sprintf("PutObjectTagging(%s/%s@%s,%v)", b, k, strp(mv), tags)
 		d.log("%s", op)
 		err := d.St.PutObjectTagging(d.ctx, bn(b), ok(k), tags, topts)
+		d.noteOp(op, err)
 		want := d.M.PutTags(b, k, mv, tags)
 		if want == model.OK {
 			d.Mutations++
@@ -978,6 +1003,7 @@ func (d *Driver) opTagging(g *sim.Tape) *Violation {
 		op := fmt.Sprintf("DeleteObjectTagging(%s/%s@%s)", b, k, strp(mv))
 		d.log("%s", op)
 		err := d.St.DeleteObjectTagging(d.ctx, bn(b), ok(k), topts)
+		d.noteOp(op, err)
 		want := d.M.PutTags(b, k, mv, nil)
 		if want == model.OK {
 			d.Mutations++
@@ -989,6 +1015,7 @@ func (d *Driver) opTagging(g *sim.Tape) *Violation {
 		op := fmt.Sprintf("GetObjectTagging(%s/%s@%s)", b, k, strp(mv))
 		d.log("%s", op)
 		got, err := d.St.GetObjectTagging(d.ctx, bn(b), ok(k), topts)
+		d.noteOp(op, err)
 		want, wk := d.M.GetTags(b, k, mv)
 		if v := d.agree(op, wk, err); v != nil {
 			return v
@@ -1033,6 +1060,7 @@ func (d *Driver) opTransition(g *sim.Tape) *Violation {
 	op := fmt.Sprintf("Transition(%s/%s@%s -> %s)", b, k, strp(mv), class)
 	d.log("%s", op)
 	err := d.St.TransitionObjectStorageClass(d.ctx, bn(b), ok(k), class, opts)
+	d.noteOp(op, err)
 	mclass := class
 	if mclass == "STANDARD" {
 		mclass = ""
@@ -1077,6 +1105,7 @@ func (d *Driver) opMultipart(g *sim.Tape) *Violation {
 		op := fmt.Sprintf("CreateMultipartUpload(%s/%s,ct=%s,cstype=%s,class=%s)", b, k, strp(ct), cstype, strp(class))
 		d.log("%s", op)
 		res, err := d.St.CreateMultipartUpload(d.ctx, bn(b), ok(k), ct, cst, opts)
+		d.noteOp(op, err)
 		mid, want := d.M.CreateUpload(b, k, ct, cstype, a)
 		if v := d.agree(op, want, err); v != nil {
 			return v
@@ -1097,6 +1126,7 @@ func (d *Driver) opMultipart(g *sim.Tape) *Violation {
 		op := fmt.Sprintf("UploadPart(%s/%s,%s,#%d,%dB)", b, u.Key, mid, n, len(body))
 		d.log("%s", op)
 		res, err := d.St.UploadPart(d.ctx, bn(b), ok(u.Key), rid, int32(n), d.reader(body, g), nil)
+		d.noteOp(op, err)
 		want := d.M.UploadPart(b, u.Key, mid, n, body)
 		if v := d.agree(op, want, err); v != nil {
 			return v
@@ -1134,6 +1164,7 @@ func (d *Driver) opMultipart(g *sim.Tape) *Violation {
 		op := fmt.Sprintf("UploadPartCopy(%s/%s -> %s/%s,%s,#%d,range=%s-%s)", sb, sk, b, u.Key, mid, n, i64p(rs), i64p(re))
 		d.log("%s", op)
 		_, err := d.St.UploadPartCopy(d.ctx, bn(sb), ok(sk), bn(b), ok(u.Key), rid, int32(n), opts)
+		d.noteOp(op, err)
 		_, want := d.M.UploadPartCopy(sb, sk, b, u.Key, mid, n, nil, rs, re)
 		if v := d.agree(op, want, err); v != nil {
 			return v
@@ -1186,6 +1217,7 @@ func (d *Driver) opMultipart(g *sim.Tape) *Violation {
 			return nil
 		}
 		res, err := d.St.CompleteMultipartUpload(d.ctx, bn(b), ok(u.Key), rid, nil, opts)
+		d.noteOp(op, err)
 		key := u.Key
 		mv, want := d.M.CompleteUpload(b, key, mid, declared, cond)
 		if v := d.agree(op, want, err); v != nil {
@@ -1212,6 +1244,7 @@ func (d *Driver) opMultipart(g *sim.Tape) *Violation {
 		op := fmt.Sprintf("AbortMultipartUpload(%s/%s,%s)", b, u.Key, mid)
 		d.log("%s", op)
 		err := d.St.AbortMultipartUpload(d.ctx, bn(b), ok(u.Key), rid)
+		d.noteOp(op, err)
 		want := d.M.AbortUpload(b, u.Key, mid)
 		if want == model.OK {
 			d.Mutations++
